@@ -300,6 +300,9 @@ pub fn run(env: &Env) -> i32 {
 }
 
 fn layout_case(case: &mut Case, base: &Path) -> CaseResult {
+    // how the command is started (working directory, --config-file spelling): drawn first so that it varies
+    let cli_style = case.ch.below(crate::cli::CLI_STYLES);
+    case.label(&format!("cli-style-{cli_style}"));
     use crate::cli::run_cli;
     use crate::projects::{dir_of, gen_project, norm, write_project, ProjectOpts};
     let mut po = ProjectOpts::default();
@@ -310,7 +313,7 @@ fn layout_case(case: &mut Case, base: &Path) -> CaseResult {
     let gp = gen_project(case, &po);
     let proj = write_project(&gp, base);
     let root = proj.path(&gp.layout.root);
-    let run = run_cli(&root, &["generate", "--output-format", "json"]);
+    let run = crate::cli::run_cli_styled(&root, &["generate", "--output-format", "json"], cli_style);
     let detail = json!({"config": gp.config, "files": gp.schema_files.iter().chain(gp.op_files.iter()).map(|(p, t)| json!({"path": p, "text": t})).collect::<Vec<_>>(),
         "status": run.status, "stdout": run.stdout.chars().take(800).collect::<String>(), "stderr": run.stderr.chars().take(400).collect::<String>()});
     let res = (|| -> CaseResult {
